@@ -103,11 +103,12 @@ Qed.
 Lemma watch_do_act : forall cfg a st st' l x, watch x st -> do_act cfg st a = (st', l) ->
   survives x l -> watch x st'.
 Proof.
-  intros cfg a st st' l x Hw H Hs. destruct a as [k t p tag h body|tag|h]; cbn [do_act] in H.
+  intros cfg a st st' l x Hw H Hs. destruct a as [k t p tag h body|tag|h|]; cbn [do_act] in H.
   - destruct (do_sched cfg st k t p tag h body) as [s rc] eqn:E. inversion H; subst.
     eapply watch_do_sched; eassumption.
   - inversion H; subst. apply watch_do_cancel; [exact Hw|]. apply survives_cancel, Hs.
   - inversion H; subst. apply watch_do_drop; [exact Hw|]. apply survives_drop, Hs.
+  - inversion H; subst. exact Hw.
 Qed.
 
 Lemma watch_do_acts : forall cfg acts st st' l x, watch x st -> do_acts cfg st acts = (st', l) ->
@@ -116,6 +117,8 @@ Proof.
   intros cfg acts. induction acts as [|a r IH]; intros st st' l x Hw H Hs; cbn [do_acts] in H.
   - inversion H; subst. exact Hw.
   - destruct (do_act cfg st a) as [s1 l1] eqn:E1.
+    destruct (has_raise l1) eqn:Hr.
+    { inversion H; subst. eapply watch_do_act; eassumption. }
     destruct (do_acts cfg s1 r) as [s2 l2] eqn:E2. inversion H; subst.
     apply survives_app in Hs. destruct Hs as [Hs1 Hs2].
     eapply IH; [|exact E2|exact Hs2].
@@ -188,6 +191,9 @@ Proof.
   - destruct (pop_event (s_events st)) as [[e rest]|] eqn:Ep.
     + destruct (e_time e <=? endt).
       * destruct (exec_event cfg (set_events st rest) e) as [s1 l1] eqn:E1.
+        destruct (has_raise l1) eqn:Hr.
+        { inversion H; subst.
+          destruct (watch_exec_event _ _ _ _ _ _ _ Hi Ep E1 Hw Hs) as [[_ Hc]|[_ Hw1]]; auto. }
         destruct (run_loop cfg n endt s1) as [[s2 l2] ok2] eqn:E2. inversion H; subst.
         apply survives_app in Hs. destruct Hs as [Hs1 Hs2].
         destruct (watch_exec_event _ _ _ _ _ _ _ Hi Ep E1 Hw Hs1) as [[_ [c Hc]]|[_ Hw1]].
